@@ -493,7 +493,23 @@ theorem setop_holder_projects_partial (env : Env) (silent : Bool) (s : Stmt) (hp
 /-- a statement of one of the three write fragments of `Proofs/ColumnsExact.lean` whose qualifiers are all in scope -/
 def StmtOK (env : Env) (s : Stmt) : Prop :=
   ((fragStmt env s = true ∨ fragStmtCols env s = true) ∧ stmtScoped env s = true) ∨
-  (fragStmtSetop env s = true ∧ stmtScopedSetop env s = true)
+  (fragStmtSetop env s = true ∧ stmtScopedSetop env s = true) ∨
+  plainStmt s = true
+
+/-- every holder `analyze` returns for such a statement projects and is well-formed -/
+theorem stmtOK_holder (env : Env) (silent : Bool) (s : Stmt) (hp : env.prov.truthy = false) (h : StmtOK env s) (g : LGraph)
+    (hg : analyze env silent s = .ok g) : HolderOK g ∧ WF g := by
+  rcases h with ⟨h1 | h1, h2⟩ | ⟨h1, h2⟩ | h1
+  · obtain ⟨g', hg', hok⟩ := analyze_holderOK env silent s hp h1 h2
+    obtain ⟨g'', hg'', hE⟩ := analyze_exact env silent s hp h1
+    rw [hg] at hg' hg''; cases hg'; cases hg''; exact ⟨hok, hE.wf⟩
+  · obtain ⟨g', hg', hok⟩ := analyze_holderOK_cols env silent s hp h1 h2
+    obtain ⟨g'', hg'', hE⟩ := analyze_exact_cols env silent s hp h1
+    rw [hg] at hg' hg''; cases hg'; cases hg''; exact ⟨hok, hE.wf⟩
+  · obtain ⟨g', hg', hok⟩ := analyze_holderOK_setop env silent s hp h1 h2
+    obtain ⟨g'', hg'', hE⟩ := analyze_exact_setop env silent s hp h1
+    rw [hg] at hg' hg''; cases hg'; cases hg''; exact ⟨hok, hE.wf⟩
+  · exact analyze_holderOK_plain env silent s h1 g hg
 
 /-- the environment `Runner.analyzeAll` analyses a statement in -/
 def envOf (c : Runner.Config) (p : Runner.Provider) : Env := ⟨c.cfgDefault, c.importDefault, p.view, c.ro, c.revStar⟩
@@ -505,10 +521,15 @@ theorem register_base (p : Runner.Provider) (h : LGraph) : (Runner.register p h)
     split <;> rfl
   · rfl
 
+theorem stmtOK_prov (env : Env) (pv : ProvView) (s : Stmt) (h : StmtOK env s) : StmtOK { env with prov := pv } s := by
+  unfold StmtOK at *
+  rw [fragStmt_prov, fragStmtCols_prov, fragStmtSetop_prov, stmtScoped_prov, stmtScopedSetop_prov]
+  exact h
+
 theorem analyzeAll_holderOK (c : Runner.Config) : ∀ (ss : List Stmt) (p p' : Runner.Provider) (hs : List LGraph),
     p.base = [] →
     (∀ s ∈ ss, StmtOK (envOf c ⟨[], []⟩) s) →
-    Runner.analyzeAll c p ss = .ok (p', hs) → p'.base = [] ∧ ∀ h ∈ hs, HolderOK h
+    Runner.analyzeAll c p ss = .ok (p', hs) → p'.base = [] ∧ ∀ h ∈ hs, HolderOK h ∧ WF h
   | [], p, p', hs, hb, _, he => by
     simp only [Runner.analyzeAll, Except.ok.injEq, Prod.mk.injEq] at he
     obtain ⟨rfl, rfl⟩ := he
@@ -516,36 +537,36 @@ theorem analyzeAll_holderOK (c : Runner.Config) : ∀ (ss : List Stmt) (p p' : R
   | s :: r, p, p', hs, hb, hfrag, he => by
     have hpt : (envOf c p).prov.truthy = false := by simp [envOf, Runner.Provider.view, hb]
     have hsw : envOf c p = { envOf c ⟨[], []⟩ with prov := p.view } := rfl
-    obtain ⟨g, hg, hok⟩ : ∃ g, analyze (envOf c p) c.silent s = .ok g ∧ HolderOK g := by
-      rcases hfrag s (by simp) with ⟨h1 | h1, h2⟩ | ⟨h1, h2⟩
-      · exact analyze_holderOK (envOf c p) c.silent s hpt (by rw [hsw, fragStmt_prov]; exact h1)
-          (by rw [hsw, stmtScoped_prov]; exact h2)
-      · exact analyze_holderOK_cols (envOf c p) c.silent s hpt (by rw [hsw, fragStmtCols_prov]; exact h1)
-          (by rw [hsw, stmtScoped_prov]; exact h2)
-      · exact analyze_holderOK_setop (envOf c p) c.silent s hpt (by rw [hsw, fragStmtSetop_prov]; exact h1)
-          (by rw [hsw, stmtScopedSetop_prov]; exact h2)
-    unfold envOf at hg
-    simp only [Runner.analyzeAll, hg] at he
-    cases hrec : Runner.analyzeAll c (Runner.register p g) r with
-    | error e => rw [hrec] at he; cases he
-    | ok res =>
-      obtain ⟨p2, hs2⟩ := res
-      rw [hrec] at he
-      simp only [Except.ok.injEq, Prod.mk.injEq] at he
-      obtain ⟨rfl, rfl⟩ := he
-      obtain ⟨hb2, hall⟩ := analyzeAll_holderOK c r _ _ _ (by rw [register_base]; exact hb)
-        (fun x hx => hfrag x (by simp [hx])) hrec
-      refine ⟨hb2, ?_⟩
-      intro h hh
-      rcases List.mem_cons.mp hh with rfl | hh
-      · exact hok
-      · exact hall h hh
+    have hok : StmtOK (envOf c p) s := by rw [hsw]; exact stmtOK_prov _ _ s (hfrag s (by simp))
+    cases hg : analyze (envOf c p) c.silent s with
+    | error e =>
+      unfold envOf at hg
+      simp only [Runner.analyzeAll, hg] at he
+      cases he
+    | ok g =>
+      have hgood := stmtOK_holder (envOf c p) c.silent s hpt hok g hg
+      unfold envOf at hg
+      simp only [Runner.analyzeAll, hg] at he
+      cases hrec : Runner.analyzeAll c (Runner.register p g) r with
+      | error e => rw [hrec] at he; cases he
+      | ok res =>
+        obtain ⟨p2, hs2⟩ := res
+        rw [hrec] at he
+        simp only [Except.ok.injEq, Prod.mk.injEq] at he
+        obtain ⟨rfl, rfl⟩ := he
+        obtain ⟨hb2, hall⟩ := analyzeAll_holderOK c r _ _ _ (by rw [register_base]; exact hb)
+          (fun x hx => hfrag x (by simp [hx])) hrec
+        refine ⟨hb2, ?_⟩
+        intro h hh
+        rcases List.mem_cons.mp hh with rfl | hh
+        · exact hgood
+        · exact hall h hh
 
 /-- **script level, end to end**: a script of any number of flat write statements (INSERT without column list / CTAS / CREATE VIEW
     over one SELECT block of base tables, every qualifier in scope), run by the model of `LineageRunner._eval` without metadata,
     yields a combined graph in which every column edge between table-owned columns lies over the table edge of its owners (the
     statements may also carry an explicit column list, `fragStmtCols`, or be built over a set operation of flat branches,
-    `fragStmtSetop`: `StmtOK`) —
+    `fragStmtSetop`, or be plain SELECTs over base tables, DROPs and statements that move no data, `plainStmt`: `StmtOK`) —
     provided the history leaves no unresolved column edge to the tail of `_build_digraph` (with shared unresolved columns the
     clause fails on the unchanged code: finding D11).
 
@@ -568,7 +589,8 @@ theorem script_projects_flat_partial (c : Runner.Config) (ss : List Stmt) (g : L
       rw [hb] at he
       simp only [Except.ok.injEq, Prod.mk.injEq] at he
       obtain ⟨rfl, rfl⟩ := he
-      obtain ⟨_, hall⟩ := analyzeAll_holderOK c ss _ _ _ rfl hfrag ha
+      obtain ⟨_, hall'⟩ := analyzeAll_holderOK c ss _ _ _ rfl hfrag ha
+      have hall : ∀ h ∈ hs', HolderOK h := fun h hh => (hall' h hh).1
       cases hf : Assemble.foldAll id Graph.empty hs' with
       | error e =>
         unfold Assemble.build Assemble.buildWith at hb
@@ -645,7 +667,14 @@ example : ∀ s ∈ [exMid, exTgt, exTgtCols, exUnionStmt], StmtOK (envOf {} ⟨
   · exact Or.inl ⟨Or.inl (by decide +kernel), by decide +kernel⟩
   · exact Or.inl ⟨Or.inl (by decide +kernel), by decide +kernel⟩
   · exact Or.inl ⟨Or.inr (by decide +kernel), by decide +kernel⟩
-  · exact Or.inr ⟨by decide +kernel, by decide +kernel⟩
+  · exact Or.inr (Or.inl ⟨by decide +kernel, by decide +kernel⟩)
+
+/-- a plain SELECT, a DROP and a statement that moves no data are admitted too -/
+example : ∀ s ∈ [Stmt.query (.select false [.mk (.col [] "a") none false] [.mk (.table ["t"] none false) []] none [] none) false,
+    Stmt.drop false false ["mid"], Stmt.noop "use_statement" "use db"], StmtOK (envOf {} ⟨[], []⟩) s := by
+  intro s hs
+  simp only [List.mem_cons, List.mem_nil_iff, or_false] at hs
+  rcases hs with rfl | rfl | rfl <;> exact Or.inr (Or.inr (by decide +kernel))
 
 /-- **deviation witness** (the root cause of findings D32 and K6, on a statement no engine accepts): without `stmtScoped` the
     statement‑level theorem fails — the model, like the code (`Column.to_source_columns` falls back to `Table(qualifier)`,
@@ -656,6 +685,41 @@ theorem dev_unscoped_qualifier :
       | .ok g => g.hasEdge (.col "<default>.foo.x" (some (tbl "foo"))) (.col "<default>.t.x" (some (tbl "t"))) &&
           !(Assemble.stmtRead g).contains (.ds (tbl "foo")) && (Assemble.stmtRead g).contains (.ds (tbl "bar"))
       | .error _ => false) = true := by decide +kernel
+
+
+/-! #### the summary roles along the paths of a whole script -/
+
+/-- **script level, the property's wording**: for a script of statements of the three write fragments (qualifiers in scope, no
+    metadata, no unresolved column edge left), run by the model of `LineageRunner._eval`: along every reported column path, for every
+    hop between table-owned columns, the table owning the source column is a SOURCE or INTERMEDIATE table of the script's summary,
+    the table owning the target column is a TARGET or INTERMEDIATE table, and the table graph has the edge between the two -/
+theorem script_path_roles_flat_partial (c : Runner.Config) (ss : List Stmt) (g : LGraph) (hs : List LGraph)
+    (hfrag : ∀ s ∈ ss, StmtOK (envOf c ⟨[], []⟩) s)
+    (hun : ∀ gf, Assemble.foldAll id Graph.empty hs = .ok gf → Assemble.unresolved (Assemble.tagSelfloops gf) = [])
+    (he : Runner.eval c [] ss = .ok (g, hs))
+    (p : List Node) (hp : p ∈ columnLineage g) (l : List Node) (a b : Node) (r : List Node) (hsplit : p = l ++ a :: b :: r)
+    (d T : DS) (hd : DsEdge a b d T) :
+    (Node.ds d, Node.ds T) ∈ (Assemble.tableGraph g).edges ∧
+    (Node.ds d ∈ Assemble.sourceTables g ∨ Node.ds d ∈ Assemble.intermediateTables g) ∧
+    (Node.ds T ∈ Assemble.targetTables g ∨ Node.ds T ∈ Assemble.intermediateTables g) := by
+  have hproj := script_projects_flat_partial c ss g hs hfrag hun he
+  have hwf : WF g := by
+    unfold Runner.eval at he
+    cases ha : Runner.analyzeAll c ⟨[], []⟩ ss with
+    | error e => rw [ha] at he; cases he
+    | ok res =>
+      obtain ⟨p', hs'⟩ := res
+      rw [ha] at he
+      simp only at he
+      cases hb : Assemble.build p'.asmView hs' with
+      | error e => rw [hb] at he; cases he
+      | ok g' =>
+        rw [hb] at he
+        simp only [Except.ok.injEq, Prod.mk.injEq] at he
+        obtain ⟨rfl, rfl⟩ := he
+        exact build_wf _ _ _ (fun h hh => ((analyzeAll_holderOK c ss _ _ _ rfl hfrag ha).2 h hh).2) hb
+  exact ⟨path_hops_project_partial g hproj p hp l a b r hsplit d T hd,
+    path_hop_roles_partial g hproj hwf p hp l a b r hsplit d T hd⟩
 
 end projection
 
